@@ -117,6 +117,28 @@ PRELIFE_OBS = {'add', 'ids', 'has', 'clear', 'stream', 'nodes'}
 CLEAR_EDGES_OK = {'C04', 'C05', 'C08', 'C12', 'C13', 'C15'}      # oracles that take the node set from the graph itself
 
 
+def prelife_fails(P, case, pf, rif, cut):
+    """the part of the earlier life that C04 / C19 themselves speak about: snapshot ids read during the earlier life are its inhabited
+    instants, and after clear() / clear_edges() there are none (a cleared graph keeps no snapshot)"""
+    if cut is None or P.id not in ('C04', 'C19'):
+        return []
+    removal = case.get('removal', True)
+    inh, fails = set(), []
+    for i in range(cut[0], cut[1]):
+        op, r = pf[i], rif[i]
+        if op[0] == 'add' and op[4] is not None and r == 'Done':
+            if removal:
+                inh |= set(range(op[4], op[4] + 1 if op[5] is None else op[5]))
+            else:
+                inh.add(op[4])
+        elif op[0] == 'clear' and r == 'Done':
+            inh = set()
+        elif op[0] == 'ids' and isinstance(r, list) and r != sorted(inh):
+            fails.append(dict(index=None, op=list(op), prelife_index=i - cut[0],
+                              what='earlier life: snapshot ids %r, inhabited instants %r' % (r[:8], sorted(inh)[:8])))
+    return fails
+
+
 def add_prelife(rnd, case, pid=None):
     """with probability 0.15: the graph lived before (same object): adds at instants the case itself does not use,
     reads of ids / presence / stream (so that anything cached is cached), then clear()"""
@@ -175,7 +197,7 @@ def eval_chunk(args):
         if c.get('nomodel'):
             rmf = [None] * len(pf)
         p, ri, rm = strip(pf, cut), strip(rif, cut), strip(rmf, cut)
-        fails = P.oracle(c, p, ri) + impure(p, ri)
+        fails = P.oracle(c, p, ri) + impure(p, ri) + prelife_fails(P, c, pf, rif, cut)
         for f in fails:
             i = f.get('index')
             f['impl_eq_model'] = (i is not None and not c.get('nomodel') and public(ri[i]) == rm[i])
@@ -192,7 +214,7 @@ def eval_one(P, case):
     rif = run_impl(pf, family=case.get('family', 'int'), functional=case.get('functional', False))
     rmf = [None] * len(pf) if case.get('nomodel') else run_model([pf])[0]
     p, ri, rm = strip(pf, cut), strip(rif, cut), strip(rmf, cut)
-    fails = P.oracle(case, p, ri) + impure(p, ri)
+    fails = P.oracle(case, p, ri) + impure(p, ri) + prelife_fails(P, case, pf, rif, cut)
     for f in fails:
         i = f.get('index')
         f['impl_eq_model'] = (i is not None and not case.get('nomodel') and public(ri[i]) == rm[i])
